@@ -151,6 +151,9 @@ class OrderClassV(SymObj):
         raise OutOfSubset(f"Order.{name}")
 
 
+SAME_OBJECT = z3.Function("same_object", TyS, z3.BoolSort())
+
+
 class ObjV(ZV):
     def __init__(self, t, k="obj"):
         super().__init__(t, "obj")
@@ -244,6 +247,16 @@ class TyV(ZV):
             return I.world.python_eq(I, self, other)
         finally:
             I.path.eq_depth = 0
+
+    def py_is(self, I, other):
+        """`a is b` between two type objects: object identity.  Classes (and the kinds without structural equality) are
+        identified with their terms; for the kinds whose equal copies are distinct objects (ovld's Union / Intersection,
+        dependent types, generic aliases, typing unions) equality of terms is necessary but not sufficient."""
+        if not isinstance(other, TyV):
+            return NotImplemented
+        # one answer per type term: either all the equal copies in play are one object, or none are (a consistent, coarse
+        # model: identity must not change between two evaluations of the same comparison)
+        return z3.And(self.t == other.t, z3.Or(z3.Not(is_kind(self.t, ["Union", "Inter", "Equals", "FuncDep", "Product", "Alias", "PyUnion"])), SAME_OBJECT(self.t)))
 
     def py_compare(self, I, op, other):
         # `self < other` between dependent types -> type(self).__lt__(self, other)
